@@ -359,6 +359,9 @@ class Scheduler:
             self.task_states[tid] = LocalStatus.KILLED
         except TaskFailedError:
             self.task_states[tid] = LocalStatus.FAILED
+        except Exception:
+            logger.exception("Task %s could not be run", name)
+            self.task_states[tid] = LocalStatus.FAILED
         else:
             self.task_states[tid] = LocalStatus.COMPLETED
         finally:
